@@ -86,6 +86,8 @@ class C09(Prop):
         "RxModel.GenTie.Throttle": ["throttle"],
         "RxModel.GenTie.WiringDebounce": ["debounce"],
         "RxModel.GenTie.WiringThrottle": ["throttle"],
+        "RxModel.GenTie.BufferCell": ["buftime", "bufcounttime"],
+        "RxModel.GenTie.WiringBuffer": ["buftime", "bufcounttime"],
     }
 
     def cases(self, tier, seed):
